@@ -8,6 +8,7 @@ import traceback
 import warnings
 
 VERIF = os.path.dirname(os.path.dirname(os.path.abspath(__file__)))
+OUT = os.environ.get("VERIF_OUT") or VERIF      # evidence/ and out/replay/ live here (scratch runs redirect it)
 REPO = os.environ.get("VERIF_REPO", "/repo")
 HOOK_GUARD = "PARTITURA_VERIF"
 HOOK_SINK = "PARTITURA_VERIF_TRACE"
@@ -123,7 +124,7 @@ class Check(object):
             body = {"property": self.pid, "check": check, "clause": clause, "attrs": attrs, "detail": detail,
                     "replay": replay, "tier": self.tier, "seed": self.seed}
             h = hashlib.sha1(json.dumps(body, sort_keys=True, default=str).encode()).hexdigest()[:12]
-            d = os.path.join(VERIF, "out", "replay", self.pid)
+            d = os.path.join(OUT, "out", "replay", self.pid)
             os.makedirs(d, exist_ok=True)
             path = os.path.join(d, "%s-%s-%s.json" % (check, clause.replace("/", "_").replace(" ", "_")[:40], h))
             with open(path, "w") as f:
@@ -160,8 +161,8 @@ class Check(object):
               "violations": sum(self.viol_classes.values())}
         if self.machinery_errors:
             ev["coverage"]["machinery_errors"] = self.machinery_errors[:5]
-        os.makedirs(os.path.join(VERIF, "evidence"), exist_ok=True)
-        with open(os.path.join(VERIF, "evidence", self.pid + ".json"), "w") as f:
+        os.makedirs(os.path.join(OUT, "evidence"), exist_ok=True)
+        with open(os.path.join(OUT, "evidence", self.pid + ".json"), "w") as f:
             json.dump(ev, f, indent=1, default=str)
         print("SUMMARY property=%s tier=%s seed=%d evaluations=%d validated=%d nontrivial=%d violations=%d known=%d wall=%.1fs"
               % (self.pid, self.tier, self.seed, cov["evaluations"], cov["traces_validated_against_impl"],
